@@ -43,6 +43,6 @@ def run(tier):
     chk.sample_lines(os.path.join(w, "thr00.ndjson"), idx=(1,), maxlen=700)
     chk.sample_lines(os.path.join(w, "ext00.ndjson"), idx=(1,), maxlen=700)
     chk.assumptions += ["lattice cases are a seeded sample of the bounded lattice (boxes with corners in {0..3}^3 incl. flat and inverted, origins in [-1,4]^3 or [-16,16]^3, directions in [-2,2]^3 or [-13,13]^3), not the whole lattice",
-                        "extreme-direction records are judged only when every moving axis has both plane parameters below max/4, or neither and the origin strictly inside that slab; others are counted in skipped_by_condition",
+                        "extreme-direction records (zero, denormal, huge components) are judged where the exact decision is stable: a hit is required when the ray also hits the box shrunk by 2^-20 relative on every side and its first-contact parameter is below max/4, a miss when it also misses the box grown by the same margin; grazing contact within that margin and flat boxes are counted in skipped_by_condition (the integer-lattice records judge grazing contact exactly)",
                         "reported points are required to be in the box, on its surface (unless the origin is inside) and within 16 u (|pos_i| + |t dir_i|) of the exact point"]
     return chk.finish(extra_cov={"rule": "one record per (family, element type, box, origin, direction) with the results of intersects(box,ray), intersects(box,ray,ip), findEntryAndExitPoints; exact duplicates removed"})
